@@ -2,6 +2,7 @@ use serde_json::Value;
 
 use crate::engine::{Ctx, Outcome};
 
+pub mod c06;
 pub mod c10;
 pub mod c14;
 pub mod c16;
@@ -13,6 +14,10 @@ pub struct Prop {
 
 pub fn lookup(id: &str) -> Option<Prop> {
     Some(match id {
+        "C06" => Prop {
+            check: c06::check,
+            replay: c06::replay,
+        },
         "C10" => Prop {
             check: c10::check,
             replay: c10::replay,
